@@ -1,29 +1,27 @@
 //go:build verif
 
-// C34 driver: the real pick_first policy (balancer registry, "pick_first") under a
-// recording balancer.ClientConn, driven in "rounds".
+// C34 driver: the real pick_first policy (balancer registry, "pick_first") under a recording
+// balancer.ClientConn, driven by arbitrary histories.
 //
 // Addresses are codes fam*1000+n (fam 0 = not an IP literal, 1 = IPv4, 2 = IPv6, n < 256).
 //
 // ops
 //
-//	[1, k, a1..an]  resolver update with the address list a1..an (duplicates, mixed families,
-//	                empty allowed); afterwards the driver answers every connection request
-//	                (SubConn.Connect) in the order they are made: CONNECTING, then
-//	                TRANSIENT_FAILURE - except the k-th request of this round (0-based), which
-//	                is answered CONNECTING, READY.  k = -1: every attempt fails.
-//	[4]             resolver error
+//	[1, a1..an]   resolver update with the address list a1..an (duplicates, mixed families, empty)
+//	[2, sc, s]    the channel delivers state s (0 IDLE 1 CONNECTING 2 READY 3 TF 4 SHUTDOWN) to the
+//	              state listener of sub-channel sc - ANY sub-channel ever created, also one that
+//	              was shut down long ago (a queued update), in any order
+//	[4]           resolver error
+//	[5]           250ms of (virtual) time pass: the happy-eyeballs timer fires if one is scheduled
+//	[6]           ExitIdle
 //
 // obs: one word per event, every op ends with [0]
 //
-//	[12, err]      result of UpdateClientConnState (listed first in its round)
 //	[2, sc, a]     NewSubConn for address a created sub-channel sc
-//	[3, sc]        sc.Connect()
-//	[14, sc]       sc.Shutdown()   (maximal runs sorted: map iteration order)
+//	[3, sc]        sc.Connect()      [14, sc]  sc.Shutdown()  (maximal runs of either are sorted:
+//	                                             map iteration order)
 //	[1, s, sc]     UpdateState(s); sc = the sub-channel the picker returns when s = READY, else -1
-//
-// The happy-eyeballs timer (250ms) never fires: the run is inside a synctest bubble and
-// the driver never lets time advance; it is cancelled by the next event.
+//	[12, err]      result of UpdateClientConnState
 package pickfirst
 
 import (
@@ -32,6 +30,7 @@ import (
 	"sort"
 	"testing"
 	"testing/synctest"
+	"time"
 
 	"google.golang.org/grpc/balancer"
 	_ "google.golang.org/grpc/balancer/pickfirst"
@@ -55,13 +54,17 @@ type vPickFirstSC struct {
 	e        *vPickFirstEnv
 	id       int64
 	listener func(balancer.SubConnState)
+	shut     bool
 }
 
 func (s *vPickFirstSC) Connect() {
 	s.e.evs = append(s.e.evs, []int64{3, s.id})
 	s.e.pending = append(s.e.pending, s)
 }
-func (s *vPickFirstSC) Shutdown()                                             { s.e.evs = append(s.e.evs, []int64{14, s.id}) }
+func (s *vPickFirstSC) Shutdown() {
+	s.shut = true
+	s.e.evs = append(s.e.evs, []int64{14, s.id})
+}
 func (s *vPickFirstSC) UpdateAddresses([]resolver.Address)                    {}
 func (s *vPickFirstSC) RegisterHealthListener(func(balancer.SubConnState))    {}
 func (s *vPickFirstSC) GetOrBuildProducer(balancer.ProducerBuilder) (balancer.Producer, func()) {
@@ -126,12 +129,13 @@ func (c *vPickFirstCC) UpdateState(s balancer.State) {
 func vPickFirstSortRuns(evs [][]int64) [][]int64 {
 	i := 0
 	for i < len(evs) {
-		if evs[i][0] != 14 {
+		k := evs[i][0]
+		if k != 14 && k != 3 {
 			i++
 			continue
 		}
 		j := i
-		for j < len(evs) && evs[j][0] == 14 {
+		for j < len(evs) && evs[j][0] == k {
 			j++
 		}
 		run := evs[i:j]
@@ -147,58 +151,57 @@ func vPickFirstExecIn(ops [][]int64) (obs [][]int64, nontrivial bool, tags []str
 	b := balancer.Get("pick_first").Build(cc, balancer.BuildOptions{})
 	defer b.Close()
 	tg := map[string]bool{}
-	lastTF := false
 	for _, op := range ops {
 		e.evs, e.pending = nil, nil
-		if len(op) >= 2 && op[0] == 1 {
-			k := op[1]
-			var addrs []resolver.Address
-			for _, a := range op[2:] {
-				if a >= 0 && a < 3000 && a%1000 < 256 {
-					addrs = append(addrs, vPickFirstAddr(a))
+		if len(op) >= 1 {
+			switch op[0] {
+			case 1:
+				var addrs []resolver.Address
+				for _, a := range op[1:] {
+					if a >= 0 && a < 3000 && a%1000 < 256 {
+						addrs = append(addrs, vPickFirstAddr(a))
+					}
 				}
+				err := b.UpdateClientConnState(balancer.ClientConnState{ResolverState: resolver.State{Addresses: addrs}})
+				e.evs = append(e.evs, []int64{12, vB(err != nil)})
+			case 2:
+				if len(op) == 3 && op[1] >= 0 && op[1] < int64(len(e.scs)) && op[2] >= 0 && op[2] <= 4 {
+					sc := e.scs[op[1]]
+					st := balancer.SubConnState{ConnectivityState: connectivity.State(op[2])}
+					if op[2] == 3 {
+						st.ConnectionError = errors.New("verif")
+					}
+					if sc.shut {
+						tg["late_update"] = true
+					}
+					sc.listener(st)
+				}
+			case 4:
+				b.ResolverError(errors.New("verif"))
+			case 5:
+				time.Sleep(250 * time.Millisecond)
+			case 6:
+				b.ExitIdle()
 			}
-			err := b.UpdateClientConnState(balancer.ClientConnState{ResolverState: resolver.State{Addresses: addrs}})
-			ret := []int64{12, vB(err != nil)}
-			attempt := int64(0)
-			for len(e.pending) > 0 {
-				sc := e.pending[0]
-				e.pending = e.pending[1:]
-				sc.listener(balancer.SubConnState{ConnectivityState: connectivity.Connecting})
-				if attempt == k {
-					sc.listener(balancer.SubConnState{ConnectivityState: connectivity.Ready})
-					tg["ready"] = true
-				} else {
-					sc.listener(balancer.SubConnState{ConnectivityState: connectivity.TransientFailure, ConnectionError: errors.New("verif")})
-				}
-				attempt++
-				if attempt > 1 {
-					tg["multi_attempt"] = true
-				}
-			}
-			synctest.Wait()
-			evs := vPickFirstSortRuns(e.evs)
-			for _, w := range evs {
-				if w[0] == 1 && w[1] == 1 && lastTF {
-					tg["connecting_after_tf"] = true
-				}
-				if w[0] == 1 {
-					lastTF = w[1] == 3 && len(addrs) > 0
-				}
-			}
-			obs = append(obs, ret)
-			obs = append(obs, evs...)
-		} else if len(op) >= 1 && op[0] == 4 {
-			b.ResolverError(errors.New("verif"))
-			obs = append(obs, vPickFirstSortRuns(e.evs)...)
 		}
+		synctest.Wait()
+		evs := vPickFirstSortRuns(e.evs)
+		for _, w := range evs {
+			if w[0] == 1 {
+				tg[[]string{"idle", "connecting", "ready", "tf", "shutdown"}[w[1]]] = true
+			}
+			if w[0] == 3 && len(op) > 0 && op[0] == 5 {
+				tg["timer_connect"] = true
+			}
+		}
+		obs = append(obs, evs...)
 		obs = append(obs, []int64{0})
 	}
 	for t := range tg {
 		tags = append(tags, t)
 	}
 	sort.Strings(tags)
-	return obs, tg["ready"] && tg["multi_attempt"], tags
+	return obs, tg["ready"] && tg["tf"], tags
 }
 
 var vPickFirstT *testing.T
@@ -222,39 +225,77 @@ func vPickFirstExec(cfg []int64, ops [][]int64) (obs [][]int64, nontrivial bool,
 }
 
 func vPickFirstGen(r *vRand, tier string, idx int) ([]int64, [][]int64) {
-	if idx == 0 {
-		// witness of the sticky-TF defect repaired by 4e698e5: [a1] fails -> TF; then [a2]:
-		// before the fix CONNECTING was published, now only TF
-		return nil, [][]int64{{1, -1, 1001}, {1, -1, 1002}}
-	}
-	if idx == 1 {
-		return nil, [][]int64{{4}, {1, -1, 1001, 2001, 1001, 1002, 5, 2002, 2003}, {1, 2, 1001, 2001, 1002, 7}, {1, -1, 1002, 2001}, {1, -1}, {4}, {1, 0, 1001}, {1, -1, 9}, {4}}
+	switch idx {
+	case 0:
+		// witness of the sticky-TF defect repaired by 4e698e5: [a1] fails -> TF; update [a2]; a2 connecting
+		return nil, [][]int64{{1, 1001}, {2, 0, 1}, {2, 0, 3}, {1, 1002}, {2, 1, 1}, {2, 1, 3}}
+	case 1:
+		// kept sub-channel in backoff when the pass restarts; all remaining fail -> TF
+		return nil, [][]int64{{1, 1001, 1002}, {2, 0, 1}, {2, 0, 3}, {2, 1, 1}, {1, 1001, 1002, 1003}, {2, 1, 3}, {2, 2, 1}, {2, 2, 3}}
+	case 2:
+		// address removed and re-added; late READY of the old, shut-down sub-channel
+		return nil, [][]int64{{1, 1001, 1002}, {2, 0, 1}, {1, 1002}, {1, 1001, 1002}, {2, 0, 2}, {2, 1, 1}, {2, 2, 1}, {2, 2, 2}, {2, 0, 3}, {2, 2, 0}, {6}}
+	case 3:
+		// happy eyeballs: timer-driven attempts, out-of-turn failures, last one wins
+		return nil, [][]int64{{1, 1001, 2001, 1002, 5}, {2, 0, 1}, {5}, {2, 1, 1}, {5}, {2, 0, 3}, {5}, {5}, {2, 2, 3}, {2, 1, 3}, {2, 3, 1}, {2, 3, 2}, {2, 3, 0}, {6}, {5}}
 	}
 	var ops [][]int64
-	n := 4 + r.Intn(12)
-	pool := int64(2 + r.Intn(5))
+	n := 25 + r.Intn(60)
+	pool := int64(2 + r.Intn(4))
+	nsc := int64(0)
 	for i := 0; i < n; i++ {
-		if r.Chance(10) {
+		k := r.Intn(100)
+		switch {
+		case k < 14:
+			m := 1 + r.Intn(5)
+			if r.Chance(6) {
+				m = 0
+			}
+			op := []int64{1}
+			for j := 0; j < m; j++ {
+				op = append(op, int64(r.Intn(3))*1000+r.I64n(pool))
+			}
+			ops = append(ops, op)
+			nsc++
+		case k < 18:
 			ops = append(ops, []int64{4})
-			continue
+		case k < 28:
+			ops = append(ops, []int64{5})
+			if r.Chance(50) {
+				nsc++
+			}
+		case k < 32:
+			ops = append(ops, []int64{6})
+		default:
+			// mostly the most recent sub-channels, sometimes any (also long shut-down ones)
+			var sc int64
+			if nsc > 0 && r.Chance(75) {
+				sc = nsc - 1 - int64(r.Intn(3))
+				if sc < 0 {
+					sc = 0
+				}
+			} else {
+				sc = r.I64n(nsc + 1)
+			}
+			st := r.PickI64(1, 1, 3, 3, 3, 2, 2, 0, 0, 4)
+			if r.Chance(35) {
+				// a plausible attempt: CONNECTING, then the outcome
+				ops = append(ops, []int64{2, sc, 1})
+				st = r.PickI64(2, 2, 3, 3)
+			}
+			ops = append(ops, []int64{2, sc, st})
+			if st == 3 && r.Chance(60) {
+				nsc++
+			}
 		}
-		m := r.Intn(8)
-		if r.Chance(8) {
-			m = 0
+		if nsc > 40 {
+			nsc = 40
 		}
-		op := []int64{1, -1}
-		for j := 0; j < m; j++ {
-			op = append(op, int64(r.Intn(3))*1000+r.I64n(pool))
-		}
-		if r.Chance(55) {
-			op[1] = int64(r.Intn(m + 1))
-		}
-		ops = append(ops, op)
 	}
 	return nil, ops
 }
 
 func TestVerif_PickFirst(t *testing.T) {
 	vPickFirstT = t
-	vRunDriver(t, "PickFirst", 80, 1600, vPickFirstGen, vPickFirstExec)
+	vRunDriver(t, "PickFirst", 120, 2400, vPickFirstGen, vPickFirstExec)
 }
